@@ -92,6 +92,10 @@ class C12(hc.PProp):
                 continue
             receipt = prior[-1][1]
             age_s = (r.t_send - receipt) / 1e6
+            # RFC 9111 4.2.3: the response was already this old when squid received it. Only the unambiguous part is enforced: a Date in the past
+            # by less than a day (squid documents that it distrusts older or future Dates and uses its own clock then) and the Age header
+            skew = url.get('date_skew', 0)
+            age_s += max(-skew if -86400 < skew < 0 else 0, url.get('age') or 0)
             forced = 'max-age=0' in cc or 'no-cache' in cc or pragma
             if forced:
                 stats['forced_revalidations_judged'] += 1
